@@ -46,6 +46,7 @@ import (
 	"github.com/apache/skywalking-banyandb/banyand/queue/pub"
 	"github.com/apache/skywalking-banyandb/banyand/queue/sub"
 	"github.com/apache/skywalking-banyandb/pkg/logger"
+	"github.com/apache/skywalking-banyandb/pkg/verif/e2e"
 	"github.com/apache/skywalking-banyandb/pkg/verif/ev"
 	"github.com/apache/skywalking-banyandb/pkg/verif/par"
 )
@@ -1811,6 +1812,15 @@ func record(l layT, cs uint32) ([]*clusterv1.SyncPartRequest, map[string]bool) {
 func main() {
 	_ = logger.Init(logger.Logging{Env: "prod", Level: "fatal"})
 	thorough := ev.Thorough()
+	if cw := os.Getenv("C17_CLUSTER_WORKER"); cw != "" {
+		var c cwCfg
+		if err := json.Unmarshal([]byte(cw), &c); err != nil {
+			fmt.Println("E2E-FATAL: bad worker configuration:", err)
+			os.Exit(e2e.ExitHarness)
+		}
+		clusterWorker(c)
+		return
+	}
 	if rp := ev.Arg("--replay"); rp != "" {
 		replay(rp)
 		return
@@ -1844,6 +1854,15 @@ func main() {
 	}
 	_ = os.RemoveAll(filepath.Join(rd, "replays", "C17")) // artefacts of earlier runs would be mistaken for this run's
 	r := ev.New("C17", "fault_enumeration")
+	if os.Getenv("C17_PHASES") == "cluster" { // development aid: only the cluster phase
+		clusterPhase(r, thorough, scratch)
+		r.Set("evaluations", 0)
+		r.Set("distinct_nontrivial", 0)
+		r.Set("rule", "development run of the cluster phase only")
+		r.Sample("cluster phase only")
+		_ = os.RemoveAll(scratch)
+		r.Finish()
+	}
 	// 1. templates and base sequences from the real sender
 	chunks := map[string]int{}
 	orderCount := 0
@@ -1981,9 +2000,10 @@ func main() {
 	r.Set("outcome_classes", classes)
 	r.Set("chunks_per_base_sequence", chunks)
 	r.Set("file_orders_seen_while_recording", orderCount)
-	r.Set("phases", []string{"record", "rx", "pairs", "loop"})
-	r.Set("rule", "one evaluation = one transfer executed on the real receiver (rx/pairs: recorded chunk sequence with the fault(s) applied; loop: real sender and receiver over gRPC with the fault injected in a stream interceptor); non-trivial = the executed message sequence / injected fault differs from the clean transfer; all cases are distinct (pairs are deduplicated by the message sequence they produce; degenerate pairs, whose second fault has lost its target, are not run; both counted separately)")
-	r.Assume("measure engine only; TSDB/segment layer below the part handler is a stub that hands out one real tsTable")
+	r.Set("phases", []string{"record", "rx", "pairs", "loop", "cluster"})
+	r.Set("rule", "one evaluation = one transfer executed on the real receiver (rx/pairs: recorded chunk sequence with the fault(s) applied; loop: real sender and receiver over gRPC with the fault injected in a stream interceptor); non-trivial = the executed message sequence / injected fault differs from the clean transfer; all cases are distinct (pairs are deduplicated by the message sequence they produce; degenerate pairs, whose second fault has lost its target, are not run; both counted separately). Phase cluster: one evaluation = one request answered by one cluster configuration and compared with the standalone server's answer; non-trivial = the standalone answer is an error or has at least one row")
+	r.Assume("part-transfer phases: measure engine only; TSDB/segment layer below the part handler is a stub that hands out one real tsTable")
+	r.Assume("cluster phase: pkg/test/setup's in-process nodes, the generated stubs and Inspect's pending/row counters are trusted; placement is audited at block level (series, timestamp bounds, row counts)")
 	r.Assume("the receiver's wall-clock buffer timeout (5 s) is moved out of reach; no verdict depends on time")
 	r.Assume("tag-family file order of the base sequences is the lexicographically smallest of the Go map orders seen in 24 clean recordings")
 	fmt.Printf("C17 evaluations=%d (rx=%d pairs=%d loop=%d) nontrivial=%d distinct_outcomes=%d\n", total, evals["rx"], evals["pairs"], evals["loop"], nt, len(sigs))
@@ -1993,6 +2013,11 @@ func main() {
 	}
 	sort.Strings(cl)
 	fmt.Println("  outcome classes:", strings.Join(cl, " "))
+	if ph := os.Getenv("C17_PHASES"); ph == "" || strings.Contains(ph, "cluster") {
+		cs := clusterPhase(r, thorough, scratch)
+		r.Set("evaluations", total+cs.evals)
+		r.Set("distinct_nontrivial", nt+cs.nontriv)
+	}
 	_ = os.RemoveAll(scratch)
 	r.Finish()
 }
@@ -2028,6 +2053,16 @@ func replay(path string) {
 	if err := json.Unmarshal(b, &doc); err != nil {
 		fmt.Println("HARNESS-ERROR:", err)
 		os.Exit(2)
+	}
+	var ph struct {
+		Artefact struct {
+			Phase string `json:"phase"`
+		} `json:"artefact"`
+	}
+	_ = json.Unmarshal(b, &ph)
+	if ph.Artefact.Phase == "cluster" {
+		replayCluster(doc.Key, b)
+		return
 	}
 	scratch, err = os.MkdirTemp("/dev/shm", "c17r-")
 	if err != nil {
